@@ -33,7 +33,7 @@ Definition tbl (l : list pos) : pos -> bool := fun p => existsb (pos_eqb p) l.
 Definition kind_of (k : nat) : kind := match k with 0%nat => Generic | 1%nat => Toast | _ => ToastFiltered end.
 Record wcase := mkWC {
   c_kind : nat; c_depth : nat; c_tbl : list pos; c_apex : pos; c_sub : bool;
-  c_par : nat; c_pcap : nat; c_bad : list pos;
+  c_par : nat; c_pcap : nat; c_bad : list pos; c_cont : bool;
   c_trace : list (list wact * wact);
   o_returned : bool; o_cb : list (bool * pos * nat); o_spawned : bool }.
 Definition eq_ev (x y : bool * pos * nat) : bool :=
@@ -45,7 +45,7 @@ Definition chk (c : wcase) : nat :=
   match winit P (c_par c) (c_pcap c) with
   | None => 5
   | Some s0 =>
-    match wreplay (tbl (c_bad c)) s0 (c_trace c) 0 with
+    match wreplay_c (c_cont c) (tbl (c_bad c)) s0 (c_trace c) 0 with
     | inr i => 1000 + i
     | inl s =>
         if negb (Bool.eqb (wreturned s) (o_returned c)) then 1
@@ -84,7 +84,7 @@ def g_wact(name):
     if kind == "Cb":
         return f"(KCb {int(who[1:])})"
     w = int(who.split(":")[0][1:])
-    return {"Recv": f"(KRecv {w})", "Timeout": f"(KTimeout {w})", "IsSet": f"(KIsSet {w})",
+    return {"Recv": f"(KRecv {w})", "Timeout": f"(KTimeout {w})", "IsSet": f"(KIsSet {w})", "CTimeout": f"(KCTimeout {w})",
             "Put": f"(KPut {w})", "Exit": f"(KExit {w})"}[kind]
 
 
@@ -92,7 +92,7 @@ def g_trace(trace):
     return g_list(["(%s, %s)" % (g_list([g_wact(n) for n in en]), g_wact(ch)) for en, ch in trace])
 
 
-def run_walk(case, chooser, bad=()):
+def run_walk(case, chooser, bad=(), contention=False):
     kind, depth, table, apex, sub, par, pcap = case
     cb = []
     sref = [None]
@@ -124,12 +124,12 @@ def run_walk(case, chooser, bad=()):
     sink = io.StringIO()
     try:
         with contextlib.redirect_stdout(sink), contextlib.redirect_stderr(sink):
-            outcome, val, S = detsched.run_under((), fn, pipe_cap=pcap, chooser=chooser)
+            outcome, val, S = detsched.run_under((), fn, pipe_cap=pcap, chooser=chooser, contention=contention)
     finally:
         detsched.Scheduler.__init__ = orig_init
     exits = [S.actors[f"W{i}"].exited and S.actors[f"W{i}"].exitcode == 0 for i in range(S.n_workers)]
     return dict(outcome=outcome, error=repr(val) if outcome == "raised" else None, trace=S.trace, cb=cb,
-                spawned=S.n_workers, exits=exits)
+                spawned=S.n_workers, exits=exits, cont=bool(contention))
 
 
 def property_fails(case, r, serial_ops):
@@ -181,9 +181,9 @@ def gen_case(rng):
 
 def g_case(case, r, bad=()):
     kind, depth, table, apex, sub, par, pcap = case
-    return ("(mkWC %d %d %s %s %s %d %d %s %s %s %s %s)" % (
+    return ("(mkWC %d %d %s %s %s %d %d %s %s %s %s %s %s)" % (
         kind, depth, g_list([g_pos(p) for p in table]), g_pos(apex), g_bool(sub), par, min(pcap, 1 << 20),
-        g_list([g_pos(p) for p in bad]), g_trace(r["trace"]), g_bool(r["outcome"] == "returned"),
+        g_list([g_pos(p) for p in bad]), g_bool(r.get("cont", False)), g_trace(r["trace"]), g_bool(r["outcome"] == "returned"),
         g_list([f"({g_bool(e)}, {g_pos(p)}, {w})" for e, p, w in r["cb"]]), g_bool(r["spawned"] > 0)))
 
 
@@ -232,12 +232,16 @@ def run(ctx, V):
         c = ctx["replay"]["case"]
         case = (c["kind"], c["depth"], tuple(tuple(p) for p in c["table"]), tuple(c["apex"]), c["sub"], c["par"], c["pcap"])
         cases.append(case)
-        results.append(run_walk(case, detsched.trace_chooser(c["chosen"])))
+        results.append(run_walk(case, detsched.trace_chooser(c["chosen"]), contention=bool(c.get("cont"))))
     for k in range(n_cases):
         srng = common.rng_for(rng.randrange(1 << 30), "C01case")
         case = gen_case(srng)
         mode = srng.choice(MODES)
-        r = run_walk(case, make_chooser(srng, mode, srng.choice((60, 200, 600))))
+        # every third walk admits Empty under reader-lock contention on the ready queue; half of those prefer it
+        cont = (k % 3 == 2)
+        if k % 6 == 5:
+            mode = "contend"
+        r = run_walk(case, make_chooser(srng, mode, srng.choice((60, 200, 600))), contention=cont)
         r["mode"] = mode
         cases.append(case)
         results.append(r)
@@ -260,7 +264,7 @@ def run(ctx, V):
                     {0: "agrees; C01 predicate fails on implementation", 1: "returned", 2: "callback log",
                      3: "workers spawned", 5: "preparation pass"}[code]))
             V.disagreement(rel, dict(kind=kind, depth=depth, table=[list(p) for p in table], apex=list(apex), sub=sub,
-                                     par=par, pcap=pcap, chosen=[list(ch) for _e, ch in r["trace"]]),
+                                     par=par, pcap=pcap, cont=r.get("cont", False), chosen=[list(ch) for _e, ch in r["trace"]]),
                            "model replay of the recorded trace; theorems walk_par_safety / walk_par_terminal",
                            dict(outcome=r["outcome"], callbacks=r["cb"][:12], why=why), bool(why))
     n_fork = real_fork_runs(rng, 4 if quick else 30, V)
@@ -268,9 +272,12 @@ def run(ctx, V):
                     steps=len(r["trace"]), callbacks=len(r["cb"])) for c, r in list(zip(cases, results))[:3]]
     return dict(evaluations=len(cases) + n_fork, distinct_nontrivial=len(nontrivial),
                 traces_validated_against_impl=len(terms), real_fork_runs=n_fork,
+                walks_with_lock_contention=sum(1 for r in results if r.get("cont")),
+                contended_empty_exceptions_taken=sum(1 for r in results for _e, ch in r["trace"] if ch[0] == "CTimeout"),
                 scheduler_steps=sum(len(r["trace"]) for r in results),
                 rule="random pyramids (generic / TOAST / filtered with gap children and accept-but-childless tiles, random "
-                     "sub-pyramid apex), par in {2,3,4}, pipe capacity in {1,2,4,unbounded}, biased schedule choosers for "
+                     "sub-pyramid apex), par in {2,3,4}, pipe capacity in {1,2,4,unbounded}, a third of the walks with Empty under "
+                     "reader-lock contention on the ready queue (action KCTimeout), biased schedule choosers for "
                      "60-600 steps then progress-first fallback; non-trivial = distinct (pyramid, params, action sequence) "
                      "with >= 2 callbacks and at least one queue timeout",
                 input_histogram=hist, samples=samples)
